@@ -92,7 +92,7 @@ func c10Leaves(front string) []c10leaf {
 }
 
 func C10_Jobs() []string {
-	return []string{"paths/map", "paths/validate", "paths/json", "missing/map", "missing/json", "flat/json", "flat/zhttp-json", "cross-front-end", "issuepath-stale", "long-slice-paths", "sanitize-root-first", "empty-record/map", "empty-record/nested", "empty-record/json", "issuepath", "sanitize", "first-and-unique/map", "first-and-unique/validate", "root-key", "deep-slices/parse", "deep-slices/validate", "issuepath-on-copy", "empty-tag-paths/parse", "empty-tag-paths/validate", "source-tag-keys"}
+	return []string{"paths/map", "paths/validate", "paths/json", "missing/map", "missing/json", "flat/json", "flat/zhttp-json", "cross-front-end", "issuepath-stale", "long-slice-paths", "sanitize-root-first", "empty-record/map", "empty-record/nested", "empty-record/json", "issuepath", "sanitize", "first-and-unique/map", "first-and-unique/validate", "root-key", "deep-slices/parse", "deep-slices/validate", "issuepath-on-copy", "empty-tag-paths/parse", "empty-tag-paths/validate", "source-tag-keys", "many-issues-per-path", "path-lengths/parse", "path-lengths/validate"}
 }
 func C10_Covers() []string { return []string{"some-issues"} }
 
@@ -505,6 +505,70 @@ func C10_Run(job string) {
 			ek, ak = "f_email", "f_age"
 		}
 		v.Assert(len(errs) == 3 && len(errs[ek]) == 1 && len(errs[ak]) == 1 && errs[ak][0].Code == "required", "C10:issue-not-at-documented-path")
+		v.Cover("some-issues")
+	case "many-issues-per-path":
+		// three, four and five issues under one key next to other failing keys: every issue sits
+		// under the key equal to its path, once
+		v.MapOrderChoice(true)
+		var d struct {
+			A, B string
+			L    []string
+		}
+		many := z.String().Min(8).ContainsDigit().ContainsUpper().ContainsSpecial().HasPrefix("Z")
+		errs := z.Struct(z.Schema{"a": many, "b": z.String().Min(8).ContainsDigit().ContainsUpper(), "l": z.Slice(many)}).Parse(map[string]any{"a": "abc", "b": "abc", "l": []any{"abc", "abc"}}, &d)
+		v.MapOrderChoice(false)
+		c10WellFormed(errs)
+		v.Assert(len(errs) == 5 && len(errs["a"]) == 5 && len(errs["b"]) == 3 && len(errs["l[0]"]) == 5 && len(errs["l[1]"]) == 5, "C10:issue-not-at-documented-path")
+		v.Cover("some-issues")
+	case "path-lengths":
+		// keys of every length around the sizes a path buffer might have (joined paths of 24..40 bytes)
+		type leaf struct {
+			K1  int `zog:"k"`
+			K2  int `zog:"k2"`
+			K3  int `zog:"k_3"`
+			K4  int `zog:"k__4"`
+			K5  int `zog:"k___5"`
+			K6  int `zog:"k____6"`
+			K7  int `zog:"k_____7"`
+			K8  int `zog:"k______8"`
+			K9  int `zog:"k_______9"`
+			K10 int `zog:"k_______10"`
+			K11 int `zog:"k________11"`
+			K12 int `zog:"k_________12"`
+			K13 int `zog:"k__________13"`
+			K14 int `zog:"k___________14"`
+			K15 int `zog:"k____________15"`
+			K16 int `zog:"k_____________16"`
+			K17 int `zog:"k______________17"`
+		}
+		type mid struct {
+			Recipient leaf   `zog:"recipient"`
+			List      []leaf `zog:"li"`
+		}
+		type top struct {
+			Billing mid `zog:"billing_addr"`
+		}
+		sch := z.Schema{}
+		names := []string{"k1", "k2", "k3", "k4", "k5", "k6", "k7", "k8", "k9", "k10", "k11", "k12", "k13", "k14", "k15", "k16", "k17"}
+		tags := []string{"k", "k2", "k_3", "k__4", "k___5", "k____6", "k_____7", "k______8", "k_______9", "k_______10", "k________11", "k_________12", "k__________13", "k___________14", "k____________15", "k_____________16", "k______________17"}
+		for _, n := range names {
+			sch[n] = z.Int().GT(100).Required()
+		}
+		sc := z.Struct(z.Schema{"billing": z.Struct(z.Schema{"recipient": z.Struct(sch), "list": z.Slice(z.Struct(sch))})})
+		var d top
+		var errs z.ZogIssueMap
+		if b == "validate" {
+			d.Billing.List = []leaf{{}}
+			errs = sc.Validate(&d)
+		} else {
+			errs = sc.Parse(map[string]any{"billing_addr": map[string]any{"recipient": map[string]any{}, "li": []any{map[string]any{}}}}, &d)
+		}
+		c10WellFormed(errs)
+		v.Assert(len(errs) == 2*len(tags)+1, "C10:issue-not-at-documented-path")
+		for _, tg := range tags {
+			k1, k2 := "billing_addr.recipient."+tg, "billing_addr.li[0]."+tg
+			v.Assert(len(errs[k1]) == 1 && errs[k1][0].Path == k1 && len(errs[k2]) == 1 && errs[k2][0].Path == k2, "C10:issue-not-at-documented-path")
+		}
 		v.Cover("some-issues")
 	case "issuepath-on-copy":
 		// a reusable test specialised on a copy: the options of the copy that runs decide the path
